@@ -34,7 +34,10 @@
 From Coq Require Import ZArith List Bool.
 From Batchie Require Import Model.Orchestrate Proofs.C19Base Proofs.C19Canon Proofs.C19Step Proofs.C19Main
   Proofs.C19Invocation Proofs.C19InvocationThm Generated.SrcOrchestrate Proofs.C19Source
-  Generated.SrcOrchMain Proofs.C19SourceMain Generated.SrcOrchCmd Proofs.C19SourceCmd.
+  Generated.SrcOrchMain Proofs.C19SourceMain Generated.SrcOrchCmd Proofs.C19SourceCmd
+  Generated.SrcOrchInit Proofs.C19Source_ValidateInitial
+  Generated.SrcOrchArgs Proofs.C19Source_GetArgs Proofs.C19Source_GetArgsMain
+  Generated.SrcOrchPaths Proofs.C19Source_Paths Generated.SrcOrchCmdClosed Proofs.C19Source_CmdClosed.
 Import ListNotations.
 
 (* For EVERY crash schedule (any number of crashes, at any event of any call), batch size, number of
@@ -589,3 +592,235 @@ Example C19_source_dir_sort_key_examples :
   /\ src_dir_sort_key [[105; 116; 101; 114; 95; 120]]%Z = SRaised [] 7%Z
   /\ iter_pathname [[111; 117; 116]]%Z (12%Z, []) = [[111; 117; 116]; [105; 116; 101; 114; 95; 49; 50]]%Z.
 Proof. vm_compute. repeat split; reflexivity. Qed.
+
+(* ---- validate_initial_output_dir_and_get_result_files_as_dict, the whole function (Generated/SrcOrchInit.v, configuration
+   C19_VALIDATE_INITIAL; proofs: Proofs/C19Source_ValidateInitial.v).  It is handed the job directory of the initial step; the
+   three globs are model primitives as for the other helpers, everything else - `len(training) == 0 or len(metadata) == 0`,
+   the three [0] reads in their order, the `with open ... json.load`, which value sits under which key of the dict - comes from
+   the translation.  The model value: None when training.screen.h5 or screen_metadata.json is missing; an IndexError
+   (SRaised [] 98) when those two are there and test.screen.h5 is not; otherwise the record of the three. *)
+Theorem C19_model_is_source_validate_initial_output_dir : forall p : plate_path,
+  src_validate_initial p = validate_initial p.
+Proof. exact src_validate_initial_is_model. Qed.
+Print Assumptions C19_model_is_source_validate_initial_output_dir.
+
+(* which files must exist: the translated function returns the dict EXACTLY when test.screen.h5, training.screen.h5 and
+   screen_metadata.json (Orchestrate.initial_required) are all in the directory, and the dict names that directory's own two
+   screens and carries the metadata stored there *)
+Theorem C19_model_is_source_validate_initial_accepts_iff : forall (p : plate_path) (r : initial_files),
+  src_validate_initial p = SOk (Some r) <->
+  forallb (produced (snd p)) [KTest; KTraining; KMeta] = true /\ if_test r = SFile (fst p) KTest
+  /\ if_training r = SFile (fst p) KTraining /\ f_meta (snd p) = Some (if_meta r).
+Proof. exact src_validate_initial_accepts_iff. Qed.
+Print Assumptions C19_model_is_source_validate_initial_accepts_iff.
+
+(* what it raises: nothing but the IndexError of `test_screen_glob[0]`, exactly when only the test screen is missing, before
+   anything is touched; a missing training screen or metadata file is the None return; it never names a directory *)
+Theorem C19_model_is_source_validate_initial_raises_iff : forall (p : plate_path) done why,
+  src_validate_initial p = SRaised done why <->
+  produced (snd p) KTraining && produced (snd p) KMeta = true /\ produced (snd p) KTest = false /\ done = [] /\ why = 98%Z.
+Proof. exact src_validate_initial_raises_iff. Qed.
+Print Assumptions C19_model_is_source_validate_initial_raises_iff.
+
+Theorem C19_model_is_source_validate_initial_none_iff : forall p : plate_path,
+  src_validate_initial p = SOk None <-> produced (snd p) KTraining && produced (snd p) KMeta = false.
+Proof. exact src_validate_initial_none_iff. Qed.
+Print Assumptions C19_model_is_source_validate_initial_none_iff.
+
+Theorem C19_model_is_source_validate_initial_never_names : forall (p : plate_path) w s,
+  src_validate_initial p <> SNamed w s.
+Proof. exact src_validate_initial_never_names. Qed.
+Print Assumptions C19_model_is_source_validate_initial_never_names.
+
+(* the model's notion of a complete initial step: a run of the initial workflow that the model counts as complete
+   (complete_run: every file `expected` of LInit published - the three required ones are among them) leaves a directory the
+   translated function accepts ... *)
+Theorem C19_model_is_source_validate_initial_complete_run : forall md sc (p : plate_path),
+  complete_run md (LInit sc) (snd p) = true ->
+  exists m, f_meta (snd p) = Some m /\
+            src_validate_initial p = SOk (Some (mkif (SFile (fst p) KTest) (SFile (fst p) KTraining) m)).
+Proof. exact src_validate_initial_complete_run. Qed.
+Print Assumptions C19_model_is_source_validate_initial_complete_run.
+
+(* ... and on EVERY tree the retrospective script reaches (any crash schedule, marker last, repaired examine or batch size 1)
+   a job directory iter_0/plate_0 that carries the completion marker is accepted: the dict names its test and training screen
+   and says n - 1 plates are unobserved - never None, never the IndexError *)
+Theorem C19_model_is_source_validate_initial_on_reachable_trees : forall (bs n : nat) fixed,
+  (1 <= bs)%nat -> (1 <= n)%nat -> fixed = true \/ bs = 1%nat ->
+  forall sched, Forall (fun e => entry_ok e = true) sched ->
+  let f := fst (script_run Retro fixed (Z.of_nat bs) n [] sched) in
+  forall p : plate_path, In p (completed f) -> fst p = (0, 0)%Z ->
+  src_validate_initial p = SOk (Some (mkif (SFile (0, 0)%Z KTest) (SFile (0, 0)%Z KTraining) (Z.of_nat n - 1)%Z)).
+Proof. exact src_validate_initial_on_reachable_trees. Qed.
+Print Assumptions C19_model_is_source_validate_initial_on_reachable_trees.
+
+(* each required file missing in turn, the others present *)
+Example C19_source_validate_initial_each_missing :
+  let d tr te me := (((0, 0)%Z, mkp tr te true true (Some 0%Z) (Some [1; 2]%Z) me None) : plate_path) in
+  src_validate_initial (d (Some [0; 1; 2]%Z) true (Some 2%Z))
+    = SOk (Some (mkif (SFile (0, 0)%Z KTest) (SFile (0, 0)%Z KTraining) 2%Z)) /\
+  src_validate_initial (d None true (Some 2%Z)) = SOk None /\
+  src_validate_initial (d (Some [0; 1; 2]%Z) true None) = SOk None /\
+  src_validate_initial (d (Some [0; 1; 2]%Z) false (Some 2%Z)) = SRaised [] 98%Z /\
+  src_validate_initial (d None false None) = SOk None.
+Proof. vm_compute. repeat split; reflexivity. Qed.
+
+(* ---- get_args(), the whole function (Generated/SrcOrchArgs.v, configuration C19_GET_ARGS; proofs: Proofs/C19Source_GetArgs.v and,
+   for the composition with main(), Proofs/C19Source_GetArgsMain.v).  The parser object is its option table: each
+   parser.add_argument(...) call appends the entry its own arguments denote (option string, type= / choices=, required=, default=);
+   parser.parse_known_args() is the model of argparse, Orchestrate.parse_known_args, applied to the table BUILT BY THE TRANSLATION
+   and the command line.  Strings are lists of code points.  why = 64: an argparse error (usage message, exit status 2);
+   why = 90: a spelling of argparse the model does not represent (--opt=value, abbreviations, -h, negative numbers, ...; not a
+   Python behaviour). *)
+
+(* the table the four add_argument calls build is Orchestrate.orch_options - --screen str required, --batch-size int default 1,
+   --mode choices [retrospective; prospective] required, --outdir str required - and get_args is argparse on it, for EVERY
+   command line *)
+Theorem C19_model_is_source_get_args : forall cmdline : list str,
+  src_get_args cmdline = parse_known_args orch_options cmdline.
+Proof. exact src_get_args_is_model. Qed.
+Print Assumptions C19_model_is_source_get_args.
+
+(* the tie to main(): every args.<x> the translated main() reads - args.mode and args.batch_size (fields of C19_MAIN),
+   args.outdir and args.screen (under os.path.abspath) - is an attribute of EVERY namespace the translated get_args returns, with
+   the type the model of main() assumes: mode is one of the two names main() dispatches on, batch_size an int (1 when
+   --batch-size is not on the command line), outdir and screen strings; and the namespace has exactly the attributes argparse
+   derives from the four option strings *)
+Theorem C19_model_is_source_get_args_gives_main_args : forall cmdline ns extra,
+  src_get_args cmdline = SOk (ns, extra) ->
+  exists (md : mode) (b : Z) (scr out : str),
+    margs_of_ns ns = Some (mka (modename_of md) b)
+    /\ ns_get D_screen ns = Some (VStr scr) /\ ns_get D_outdir ns = Some (VStr out)
+    /\ map fst ns = map o_dest orch_options
+    /\ (~ In L_batch_size cmdline -> b = 1%Z).
+Proof. exact src_get_args_gives_main_args. Qed.
+Print Assumptions C19_model_is_source_get_args_gives_main_args.
+
+(* the remaining arguments (handed to nextflow as extra_args): each stood on the command line and none is one of the script's
+   own option strings - what launch_of_words assumes of the operator's extra words *)
+Theorem C19_model_is_source_get_args_remaining : forall cmdline ns extra,
+  src_get_args cmdline = SOk (ns, extra) ->
+  forall w, In w extra -> In w cmdline /\ ~ In w (map o_flag orch_options).
+Proof. exact src_get_args_remaining. Qed.
+Print Assumptions C19_model_is_source_get_args_remaining.
+
+(* get_args composed with main(): C19_model_is_source_main* take the parsed arguments as given and assume
+   a_mode argv = modename_of md.  Whatever the command line, when the translated get_args returns, the record main() reads off
+   the namespace satisfies that hypothesis for some mode md, and main() (fuel > schedule length) IS the model's invocation in
+   mode md with the batch size of the command line (1 by default) *)
+Theorem C19_model_is_source_get_args_then_main : forall cmdline ns remaining,
+  src_get_args cmdline = SOk (ns, remaining) ->
+  exists (md : mode) (argv : margs),
+    margs_of_ns ns = Some argv /\ a_mode argv = modename_of md
+    /\ (~ In L_batch_size cmdline -> a_batch_size argv = 1%Z)
+    /\ forall n fuel extra f sched calls0, (length sched < fuel)%nat ->
+         src_main n fuel argv extra (mkw f sched calls0)
+         = mres_of_ires calls0 (invocation md true (a_batch_size argv) n f sched).
+Proof. exact src_get_args_then_main. Qed.
+Print Assumptions C19_model_is_source_get_args_then_main.
+
+(* so the `else: raise ValueError("Unknown mode")` of main() (C19_model_is_source_main_unknown_mode) cannot be reached from a
+   command line *)
+Theorem C19_model_is_source_get_args_mode_known : forall cmdline ns remaining argv z,
+  src_get_args cmdline = SOk (ns, remaining) -> margs_of_ns ns = Some argv -> a_mode argv <> NOther z.
+Proof. exact src_get_args_mode_known. Qed.
+Print Assumptions C19_model_is_source_get_args_mode_known.
+
+Section GetArgsExamples.
+Import Coq.Strings.String.
+Local Open Scope string_scope.
+Local Definition cl (l : list string) : list str := map lit l.
+(* options in any order, the operator's extra words handed on in order; --batch-size defaults to 1 *)
+Example C19_source_get_args_examples :
+  src_get_args (cl ["-resume"; "--outdir"; "out"; "--mode"; "prospective"; "--max_cpus"; "8"; "--screen"; "s.h5"])
+    = SOk ([(D_screen, VStr (lit "s.h5")); (D_batch_size, VInt 1); (D_mode, VStr L_prospective); (D_outdir, VStr (lit "out"))],
+           cl ["-resume"; "--max_cpus"; "8"]) /\
+  src_get_args (cl ["--screen"; "a"; "--batch-size"; "3"; "--screen"; "b"; "--mode"; "retrospective"; "--outdir"; "o"])
+    = SOk ([(D_screen, VStr (lit "b")); (D_batch_size, VInt 3); (D_mode, VStr L_retrospective); (D_outdir, VStr (lit "o"))], []) /\
+  src_get_args (cl ["--screen"; "a"; "--mode"; "next_plate"; "--outdir"; "o"]) = SRaised [] 64%Z /\      (* not one of the choices *)
+  src_get_args (cl ["--screen"; "a"; "--mode"; "prospective"]) = SRaised [] 64%Z /\                       (* --outdir is required *)
+  src_get_args (cl ["--screen"; "a"; "--mode"; "prospective"; "--outdir"; "o"; "--batch-size"; "two"]) = SRaised [] 64%Z /\
+  src_get_args (cl ["--screen"; "a"; "--mode"; "prospective"; "--outdir"]) = SRaised [] 64%Z /\           (* expected one argument *)
+  src_get_args (cl ["--screen"; "a"; "--mode=prospective"; "--outdir"; "o"]) = SRaised [] 90%Z.           (* not represented *)
+Proof. vm_compute. repeat split; reflexivity. Qed.
+End GetArgsExamples.
+
+(* ---- the path helpers (Generated/SrcOrchPaths.v, configurations C19_PATH_*; proofs: Proofs/C19Source_Paths.v).  An absolute path
+   is the list of its components; __file__ is a parameter (the path os.path.realpath resolves it to); os.path.dirname / join /
+   abspath are model primitives (all but the last component / append the relative names / drop "." and let ".." remove the
+   component before it); the literals "..", "nextflow.config", "main.nf", the nesting of the calls and which helper builds on
+   which come from the translation (a helper calling another calls its translation). *)
+Theorem C19_model_is_source_get_script_location : forall f : pyfile, src_get_script_location f = SOk (script_location f).
+Proof. exact src_get_script_location_is_model. Qed.
+Print Assumptions C19_model_is_source_get_script_location.
+
+Theorem C19_model_is_source_get_nextflow_dir : forall f : pyfile, src_get_nextflow_dir f = SOk (nextflow_dir f).
+Proof. exact src_get_nextflow_dir_is_model. Qed.
+Print Assumptions C19_model_is_source_get_nextflow_dir.
+
+Theorem C19_model_is_source_get_base_config : forall f : pyfile, src_get_base_config f = SOk (base_config f).
+Proof. exact src_get_base_config_is_model. Qed.
+Print Assumptions C19_model_is_source_get_base_config.
+
+Theorem C19_model_is_source_get_repository_root : forall f : pyfile, src_get_repository_root f = SOk (repository_root f).
+Proof. exact src_get_repository_root_is_model. Qed.
+Print Assumptions C19_model_is_source_get_repository_root.
+
+Theorem C19_model_is_source_get_main_nf_file : forall f : pyfile, src_get_main_nf_file f = SOk (main_nf_file f).
+Proof. exact src_get_main_nf_file_is_model. Qed.
+Print Assumptions C19_model_is_source_get_main_nf_file.
+
+(* where they point: for a script that lies where the repository keeps it, root/nextflow/scripts/batchie.py (root any path as
+   realpath returns one: no ".", "..", empty component), the translated helpers give root/nextflow/scripts, root/nextflow,
+   root/nextflow.config, root itself and root/main.nf *)
+Theorem C19_model_is_source_paths_in_checkout : forall root : fspath, clean_path root ->
+  src_get_script_location (script_in root) = SOk (root ++ [S_nextflow; S_scripts]) /\
+  src_get_nextflow_dir (script_in root) = SOk (root ++ [S_nextflow]) /\
+  src_get_base_config (script_in root) = SOk (root ++ [S_nextflow_config]) /\
+  src_get_repository_root (script_in root) = SOk root /\
+  src_get_main_nf_file (script_in root) = SOk (root ++ [S_main_nf]).
+Proof. exact src_paths_in_checkout. Qed.
+Print Assumptions C19_model_is_source_paths_in_checkout.
+
+(* ---- the command builders once more, CLOSED over the translated path helpers (Generated/SrcOrchCmdClosed.v, configurations
+   C19_RUN_*_CLOSED; proofs: Proofs/C19Source_CmdClosed.v): get_main_nf_file() and get_repository_root() are calls of the
+   translations above; a path put on the command line is the word word_of_file root (WMainNf exactly for root/main.nf, the
+   pipeline the model describes).  For a script that lies in the checkout at root the builders denote the model's launches: no
+   opaque word for main.nf is left. *)
+Theorem C19_model_is_source_run_initial_plate_closed : forall root : fspath, clean_path root ->
+  forall acts o scr nm extra,
+  src_run_initial_plate_closed root (script_in root) acts o scr nm extra = launch_cmd acts o (option_map LInit scr).
+Proof. exact src_run_initial_plate_closed_is_model. Qed.
+Print Assumptions C19_model_is_source_run_initial_plate_closed.
+
+Theorem C19_model_is_source_run_first_batch_plate_closed : forall root : fspath, clean_path root ->
+  forall acts o tr te nm extra,
+  src_run_first_batch_plate_closed root (script_in root) acts o tr te nm extra = launch_cmd acts o (first_cmd tr te).
+Proof. exact src_run_first_batch_plate_closed_is_model. Qed.
+Print Assumptions C19_model_is_source_run_first_batch_plate_closed.
+
+Theorem C19_model_is_source_run_first_prospective_batch_plate_closed : forall root : fspath, clean_path root ->
+  forall acts o scr nm extra,
+  src_run_first_prospective_batch_plate_closed root (script_in root) acts o scr nm extra = launch_cmd acts o (option_map LProsp scr).
+Proof. exact src_run_first_prospective_batch_plate_closed_is_model. Qed.
+Print Assumptions C19_model_is_source_run_first_prospective_batch_plate_closed.
+
+Theorem C19_model_is_source_run_subsequent_batch_plate_closed : forall root : fspath, clean_path root ->
+  forall acts o scr t nm extra excl,
+  src_run_subsequent_batch_plate_closed root (script_in root) acts o scr (TGlob t) (DGlob t) nm extra excl
+  = launch_cmd acts o (next_cmd scr t excl).
+Proof. exact src_run_subsequent_batch_plate_closed_is_model. Qed.
+Print Assumptions C19_model_is_source_run_subsequent_batch_plate_closed.
+
+Section PathExamples.
+Import Coq.Strings.String.
+Local Open Scope string_scope.
+(* the hypothesis is satisfiable; and it matters where the script lies: from one directory deeper the third word is another
+   file and the command is no launch of the model (why = 8) *)
+Example C19_source_paths_example :
+  clean_path (map lit ["srv"; "batchie"]) /\
+  src_get_main_nf_file (script_in (map lit ["srv"; "batchie"])) = SOk (map lit ["srv"; "batchie"; "main.nf"]) /\
+  src_get_base_config (script_in (map lit ["srv"; "batchie"])) = SOk (map lit ["srv"; "batchie"; "nextflow.config"]) /\
+  src_run_initial_plate_closed [] (S_scripts :: script_in []) [] (0, 0)%Z (Some SInput) tt [] = SRaised [] 8%Z.
+Proof. split; [repeat constructor; discriminate | vm_compute; repeat split; reflexivity]. Qed.
+End PathExamples.
